@@ -56,6 +56,12 @@ class Rich:
             QQ = self.QQ = m.new_space("QQ", formula="lambda n: None")   # same, with a child space
             QQ.new_cells("qh", formula="lambda t: n * t")
             QQ.new_space("QC").new_cells("qc", formula="lambda: n + 1")
+            QQ.QC.new_space("QG").new_cells("qg", formula="lambda: n + 2")       # grandchild of a parametric space
+            DynB = self.DynB = m.new_space("DynB")                              # base chosen by the parameter formula of PB
+            DynB.new_cells("db", formula="lambda: n + 3")
+            DynB.new_space("DC").new_cells("dcc", formula="lambda: n + 4")
+            PB = self.PB = m.new_space("PB", formula="lambda n: {'base': DynBref}")
+            PB.DynBref = DynB
             PP = self.PP = m.new_space("PP")                              # its CHILD space is the base of another space
             PC2 = PP.new_space("PC2")
             PC2.kk = 1
